@@ -313,7 +313,7 @@ func (t *TrakBox) SetAACDescriptor(objType byte, samplingFrequency int) error {
 func (t *TrakBox) SetAC3Descriptor(dac3 *Dac3Box) error {
 	stsd := t.Mdia.Minf.Stbl.Stsd
 	nrChannels, _ := dac3.ChannelInfo()
-	samplingFrequency := AC3SampleRates[dac3.FSCod]
+	samplingFrequency := ac3SampleRate(dac3.FSCod)
 
 	ac3 := CreateAudioSampleEntryBox("ac-3",
 		uint16(nrChannels), //  Not to be used, but we set it anyway
@@ -327,7 +327,7 @@ func (t *TrakBox) SetEC3Descriptor(dec3 *Dec3Box) error {
 	stsd := t.Mdia.Minf.Stbl.Stsd
 	nrChannels, _ := dec3.ChannelInfo()
 	fscod := dec3.EC3Subs[0].FSCod
-	samplingFrequency := AC3SampleRates[fscod]
+	samplingFrequency := ac3SampleRate(fscod)
 
 	ec3 := CreateAudioSampleEntryBox("ec-3",
 		uint16(nrChannels), //  Not to be used, but we set it anyway
